@@ -316,6 +316,29 @@ def judge_member(s):
             return n, f'StateSpace.contains raised {type(e).__name__} on mutant {label}', {'part': 'member', 'mutant': label}
         if bool(got) != want:
             return n, f'StateSpace.contains = {got} on mutant {label}, reference {want}', {'part': 'member', 'mutant': label}
+    # the predicate judges the VALUE it is given: one state object, checked, changed in place, checked again
+    st = mkstate(s)
+    n += 1
+    if not ss.contains(st):
+        return n, 'StateSpace.contains rejects a conforming state', {'part': 'member', 'mutant': 'inplace'}
+    for label, edit in (('agent_outside', lambda o: setattr(o.agent, 'position', Position(-1, 0))),
+                        ('undeclared_cell', lambda o: o.grid.objects[0].__setitem__(0, mk(U.exit_(0)))),
+                        ('held_undeclared', lambda o: setattr(o.agent, 'grid_object', mk(U.telepod(U.C1))))):
+        obj = mkstate(s)
+        ss.contains(obj)
+        edit(obj)
+        n += 1
+        if ss.contains(obj):
+            return n, f'StateSpace.contains still accepts a state object after it was changed in place ({label})', {'part': 'member', 'mutant': 'inplace'}
+        fixed = mkstate(s)
+        edit(fixed)
+        ss.contains(fixed)  # rejected while broken ...
+        fixed.agent.position = Position(s[1], s[2])
+        fixed.grid.objects[0][0] = mk(s[0][0][0])
+        fixed.agent.grid_object = mk(s[4])
+        n += 1
+        if not ss.contains(fixed):  # ... and accepted once repaired in place
+            return n, f'StateSpace.contains keeps rejecting a state object after it was repaired in place ({label})', {'part': 'member', 'mutant': 'inplace'}
     if shape[1] % 2 == 1:
         osp = ObservationSpace(Shape(*shape), SUB_TYPES, SUB_COLORS)
         for label, m in state_mutants(s):
